@@ -95,7 +95,7 @@ func runC10(c *Ctx) {
 		}
 		var gs []guardCond
 		for _, g := range guardsOf(p, fn, as) {
-			if loop != nil && g.Cond.Pos() > loop.Pos() && !strings.Contains(canon(g.Cond), "err") {
+			if loop != nil && g.Cond.Pos() > loop.Pos() && !allNilTests(info, g.Cond) {
 				gs = append(gs, g)
 			}
 		}
